@@ -59,4 +59,16 @@ theorem findSome?_reverse {α β : Type} (g : α → Option β) (l : List α) :
 theorem pairwise_filter_of {α : Type} {R : α → α → Prop} {l : List α} (p : α → Bool)
     (h : l.Pairwise R) : (l.filter p).Pairwise R := List.Pairwise.sublist List.filter_sublist h
 
+/-- induction on lists from the right -/
+theorem list_snoc_induction {α : Type} {P : List α → Prop} (hnil : P [])
+    (hsnoc : ∀ l a, P l → P (l ++ [a])) : ∀ l, P l := by
+  have : ∀ l : List α, P l.reverse := by
+    intro l
+    induction l with
+    | nil => exact hnil
+    | cons a l ih => rw [List.reverse_cons]; exact hsnoc _ _ ih
+  intro l
+  have := this l.reverse
+  rwa [List.reverse_reverse] at this
+
 end Xs
